@@ -20,6 +20,34 @@ CHECKS = {
         note="Assumed (external): RectBivariateSpline derivative semantics and node interpolation, scipy dct definition. A-SHAPE for DCT node grids (3x2, 2x4).",
         technique="contract-based deductive verification: symbolic execution + derivative operator over jets + z3 nlsat",
     ),
+    "C08": dict(
+        level="proof",
+        bounded=True,
+        text="Deductive, unbounded in sizes: the real describeSingleNull/DoubleNull, createRegionObjects, EquilibriumRegion.__init__/ny, makeConnection, Mesh.__init__, BoutMesh.__init__ and the topology-integer block of writeGridfile (sliced mechanically) are executed for each of 8 topology structures with every nx_*, ny_*, nx_inter_sep and y_boundary_guards a symbolic integer; tiling, symmetry, BOUT++ adjacency (spec function bout_up) and index ordering are discharged as linear-integer obligations. Circular/TORPEX, y-coord/theta/chi and shared-edge coincidence are bounded grid checks only.",
+        note="bout_up is a specification written from doc/grid-file.rst and BOUT++'s branch-cut semantics (assumed correct reading of BOUT++); findLegs/coreRegionToRegion/segmentsWithPsivals/makeRegions/ParallelMap stubbed by their own contracts.",
+        technique="contract-based deductive verification: symbolic execution of the real book-keeping code with symbolic integer sizes + z3 linear integer arithmetic",
+    ),
+    "C13": dict(
+        level="proof",
+        bounded=True,
+        text="Deductive (no process started): the real ParallelMap.__call__ and worker_run run against contract stubs of the two queues in which get() returns an arbitrary pending item; every completion order and every task pick-up order for n<=4 tasks (n<=5 thorough) is a path; result==[f(a) for a in args], exactly-once answering, clean queues and first-failure-raises are obligations on every path. Real-process runs (np=2,3, failing task at each position, watchdog) are a bounded stand-in.",
+        note="Assumed: multiprocessing.Queue delivers each item exactly once in arbitrary order; dill/pickle round trips; no worker killed from outside. Bounded in the number of tasks (a Python list of symbolic length cannot be executed).",
+        technique="contract-based deductive verification: exhaustive path exploration of the real code over symbolic scheduling choices; bounded native multiprocessing runs",
+    ),
+    "C17": dict(
+        level="proof",
+        bounded=True,
+        text="Token lemma decided completely by enumerating the class-quotient of the token language on the real `re` after a syntactic proof that the extracted pattern is digit-blind; stream alignment of the real write()/read() for every nx,ny in 1..12 and all optional-entry variants; header parsing for every digit-length class; read_geqdsk axis/index/wall mapping proved symbolically (z3). The printf/float() 10-digit contract is assumed and swept (bounded).",
+        note="Assumed: C printf %1.9E shape and correct rounding, Python re implements its pattern. A-SHAPE: array sizes up to 12 (all residues of the 5-per-line chunking). Preconditions: finite values, two-digit exponents, nx,ny<=9999.",
+        technique="contract-based verification: symbolic execution (read_geqdsk) + exhaustive finite-quotient enumeration on the real functions (token lemma, alignment)",
+    ),
+    "C20": dict(
+        level="proof",
+        bounded=False,
+        text="Deductive: the real find_intersections is explored over all feasible paths (slope classes, orderings, tolerance filters) on 8 symbolic real coordinates; soundness (reported point on both supporting lines, within the 1e-14-extended extents), completeness (meeting segments not parallel within the code's 1e-15 slope tolerance are reported, at the meeting point), shared-vertex behaviour with the real wallIntersection, closest_approach = min distance, polygons.area = shoelace (n=3..6), polygons.intersect <=> proper crossing by orientation signs -- all discharged by z3 nlsat / raw arithmetic.",
+        note="A-REAL; wall edges treated independently (lane independence); shapes bounded for area/intersect; non-degeneracy preconditions exposed.",
+        technique="contract-based deductive verification: all-paths symbolic execution of the real functions + z3 (nlsat, default) with cvc5 fallback",
+    ),
 }
 _todo = "check not built yet in this session (work in progress; see DESIGN.md section 4 for the planned contracts)"
-NOT_APPLICABLE = {k: _todo for k in ["C01", "C03", "C04", "C05", "C06", "C08", "C09", "C10", "C11", "C12", "C13", "C14", "C15", "C16", "C17", "C19", "C20"]}
+NOT_APPLICABLE = {k: _todo for k in ["C01", "C03", "C04", "C05", "C06", "C09", "C10", "C11", "C12", "C14", "C15", "C16", "C19"]}
